@@ -20,6 +20,9 @@
  *           that failing fills hit entries other threads are attached to
  *      16 = the main thread's open / clone / free calls are recorded, too
  *           (printed as an extra thread after the readers)
+ *   C <file> <nthreads> <iterations>
+ *       clone/free storm: threads clone (sharing the translation) and free concurrently;
+ *       output: N=<n> iters=<k> xlatref=<refcnt of the translation object> expected=<live contexts>
  *   S <file> <nthreads> <iterations> <addr>
  *       stress: every thread repeats a cache hit + put of one page
  *
@@ -40,6 +43,8 @@
  *   I<c>:<e> D<c>:<e> P<c>:<e>   cache_insert / cache_discard / cache_put_entry
  *       c: 1 = page cache, 2 = file cache (mmap regions), 3 = file cache (read pages)
  *   a suffix '!' on a cache token = the calling thread did not hold cache_lock
+ *   Xi Xd          xlat_incref / xlat_decref of the shared translation object (hooks/04);
+ *                  suffix '!' = without shared->lock held for writing
  *   A<id> ... Z<id>  a public API call made by the thread (ids = Conc/ApiLock.v api_table):
  *       the lock events in between are checked against the lock class the entry point
  *       must use (read / write / write after read)
@@ -64,7 +69,7 @@ struct tstate {
 	size_t len, cap;
 	const void *held[16];
 	int nheld;
-	unsigned nolock, joined;
+	unsigned nolock, joined, xlat_nolock;
 	int wrheld;		/* holds shared->lock in write mode (exclusive section) */
 	char first_nolock[32];
 };
@@ -125,6 +130,20 @@ void verif_lock_event(int kind, const void *lock)
 	}
 	snprintf(b, sizeof b, "%c%d", "LUrwu"[kind], lock_id(lock));
 	emit(t, b);
+}
+
+/* hooks/04: the reference counter of the shared translation object (kdump_xlat.refcnt, with
+ * the list of contexts that use it) changes: the caller must hold shared->lock for writing */
+void verif_xlat_event(int kind, const void *xlat)
+{
+	struct tstate *t = me;
+	(void)xlat;
+	if (!t || !recording) return;
+	if (!t->wrheld) {
+		++t->xlat_nolock;
+		emit(t, kind ? "Xd!" : "Xi!");
+	} else
+		emit(t, kind ? "Xd" : "Xi");
 }
 
 static int cache_id(struct cache *c)
@@ -522,7 +541,7 @@ static void run_readers(char **f, int nf)
 		unsigned long rs1 = verif_cache_refsum(base->shared->cache),
 			rs2 = verif_cache_refsum(base->shared->fcache->cache),
 			rs3 = verif_cache_refsum(base->shared->fcache->fbcache), writes = 0,
-			injected = 0, postbusy = 0, persist = 0;
+			injected = 0, postbusy = 0, persist = 0, xlat_nolock = 0;
 		/* after quiescence: nothing is in flight, so no read may be refused, and every page
 		 * (cached or not) must still read as in the reference run */
 		{
@@ -558,20 +577,66 @@ static void run_readers(char **f, int nf)
 			ok += j->ok; busy += j->busy; bad += j->bad; err += j->err; writes += j->writes; injected += j->injected;
 			if (j->ts.nolock && !nolock) first = j->ts.first_nolock;
 			joined += j->ts.joined;
+			xlat_nolock += j->ts.xlat_nolock;
 			if (j->bad && !firstbad[0]) snprintf(firstbad, sizeof firstbad, "%s", j->firstbad);
 			nolock += j->ts.nolock;
 			free(j->ts.ev);
 		}
 		main_ts.ev[main_ts.len] = 0;
+		xlat_nolock += main_ts.xlat_nolock;
 		printf(" | %s", main_ts.len ? main_ts.ev : "-");
 		free(main_ts.ev);
 		/* a read may only be refused when the cache is smaller than the number of threads */
 		if (busy && cap >= nthreads) badbusy = busy;
-		printf(" | ok=%lu busy=%lu bad=%lu%s%s err=%lu refsum=%lu,%lu,%lu nolock=%lu%s%s badbusy=%lu joined=%lu writes=%lu injected=%lu postbusy=%lu persist=%lu\n",
+		printf(" | ok=%lu busy=%lu bad=%lu%s%s err=%lu refsum=%lu,%lu,%lu nolock=%lu%s%s badbusy=%lu joined=%lu writes=%lu injected=%lu postbusy=%lu persist=%lu xlatnolock=%lu\n",
 		       ok, busy, bad, (bad || persist) ? ":" : "", firstbad, err, rs1, rs2, rs3,
-		       nolock, nolock ? ":" : "", first, badbusy, joined, writes, injected, postbusy, persist);
+		       nolock, nolock ? ":" : "", first, badbusy, joined, writes, injected, postbusy, persist, xlat_nolock);
 	}
 	free(ref); free(refst);
+	pthread_barrier_destroy(&bar);
+}
+
+/* clone/free storm: every thread repeatedly clones its context (flags 0: sharing the translation)
+ * and frees the clone; at quiescence the translation object's reference counter must equal the
+ * number of live contexts (1: the base) */
+static void *cloner(void *arg)
+{
+	struct job *j = arg;
+	unsigned long i;
+	pthread_barrier_wait(j->bar);
+	for (i = 0; i < j->iters; ++i) {
+		kdump_ctx_t *c = kdump_clone(j->ctx, 0);	/* 0 = the clone shares the translation */
+		if (c) kdump_free(c);
+	}
+	return NULL;
+}
+
+static void run_clonestorm(char **f)
+{
+	static struct job jobs[MAXT];
+	pthread_t th[MAXT];
+	pthread_barrier_t bar;
+	int nthreads = atoi(f[2]), fd, i;
+	unsigned long iters = strtoul(f[3], NULL, 0);
+	kdump_ctx_t *base = open_file(f[1], &fd), *mine[MAXT];
+	if (!base || nthreads < 1 || nthreads > MAXT) { printf("OPENFAIL\n"); return; }
+	pthread_barrier_init(&bar, NULL, nthreads);
+	for (i = 0; i < nthreads; ++i) {
+		memset(&jobs[i], 0, sizeof jobs[i]);
+		mine[i] = kdump_clone(base, 0);	/* each thread works on its own clone */
+		jobs[i].ctx = mine[i];
+		jobs[i].iters = iters;
+		jobs[i].bar = &bar;
+		pthread_create(&th[i], NULL, cloner, &jobs[i]);
+	}
+	for (i = 0; i < nthreads; ++i)
+		pthread_join(th[i], NULL);
+	printf("N=%d iters=%lu xlatref=%lu expected=%d\n", nthreads, iters,
+	       (unsigned long)base->xlat->refcnt, 1 + nthreads);
+	for (i = 0; i < nthreads; ++i)
+		kdump_free(mine[i]);
+	kdump_free(base);
+	close(fd);
 	pthread_barrier_destroy(&bar);
 }
 
@@ -633,6 +698,8 @@ int main(int argc, char **argv)
 			run_readers(f, nf);
 		else if (nf == 5 && !strcmp(f[0], "S"))
 			run_stress(f);
+		else if (nf == 4 && !strcmp(f[0], "C"))
+			run_clonestorm(f);
 		else
 			printf("BADCASE\n");
 		free(line);
